@@ -12,7 +12,9 @@ for name,prop,needs,caught,missed in rows:
     print(f"| `{name}` | {needs} | {caught} |")
 print()
 never=[r[0] for r in rows if r[3].startswith('NOT caught')]
-print(f"{len(rows)} seeded changes; {sum(1 for r in rows if not r[4])} caught by the checks as they stood when the change arrived, {sum(1 for r in rows if r[4])} missed (or mis-reported) at first and caught after the check was strengthened as described.")
+first=sum(1 for r in rows if not r[4])
+later=sum(1 for r in rows if r[4]) - len(never)
+print(f"{len(rows)} seeded changes; {first} caught by the checks as they stood when the change arrived, {later} missed (or mis-reported) at first and caught after the check was strengthened as described, {len(never)} not caught.")
 if never:
     print()
     print("Not caught by any check: " + ", ".join(f"`{n}`" for n in never) + " (reason in the table).")
